@@ -259,7 +259,7 @@ func init() {
 	mc.Register(&mc.Prop{
 		ID:    "C07",
 		Level: "exploration",
-		Rule: "bounded-exhaustive exploration of the real dna.DistMatrix (models from dna.Model + SetCountGapMutations/SetRemoveAmbiguous) on a lattice of column types; every entry of every matrix is compared (1e-9 relative) with the harness's own textbook estimators, plus symmetry, zero diagonal, no-difference => 0, undefined => NaN/+Inf/2*max. " +
+		Rule: "Command line: goalign compute distance for the 7 nucleotide models x -r x --alpha 0.5 x -a x --gap-mut 0,1,2 (rawdist, pdist) x --rm-ambiguous (pdist) x -t 1,3 x --range1 0:1 --range2 1:2 on every 3x2 alignment over {A,C,-} and three larger ones, and for the 7 protein models x -r x --alpha 0.7 x -a on two protein alignments: what is printed must be the library matrix (average) for the same options, as printed with 12 decimals. " + "bounded-exhaustive exploration of the real dna.DistMatrix (models from dna.Model + SetCountGapMutations/SetRemoveAmbiguous) on a lattice of column types; every entry of every matrix is compared (1e-9 relative) with the harness's own textbook estimators, plus symmetry, zero diagonal, no-difference => 0, undefined => NaN/+Inf/2*max. " +
 			"Option space O (232 configurations) = rawdist x gap-mut {0,1,2} x rm-gaps; pdist x gap-mut x rm-gaps x rm-ambiguous; {jc,k2p,f81,f84,tn93} x gamma {off, alpha 0.5, 1, 2} x rm-gaps; all x weights {none, all 1, (1,2,3,..), (0.5,2,0.5,2,..)}. " +
 			"Alignments: (1) all 2x1 over the 15 IUPAC letters and '-' x O(unweighted) x {(cpus 1, no weights), (2, none), (1, all 1), (2, (1,2,..)), (1, (0.5,2,..))}; (2) all 2x2 over {A,C,G,T,-,N,R,Y} x O; (3) every multiset of 3 ordered pair columns over {A,C,G,T,-,N} x O; " +
 			"(4) order-dependent internal-gap mode: all ordered 2xL over {A,C,-}, L=3..5 (thorough ..6) x {rawdist,pdist} x gap-mut x rm-gaps x weights {none,(1,2,..),(0.5,2,..)}, and over {A,C,-,N}, L=3 (thorough ..4) x the same x rm-ambiguous x weights {none,(0.5,2,..)}; " +
@@ -275,8 +275,11 @@ func init() {
 			"within 1e-5 of a singularity of the estimator (argument of a logarithm = 0) rounding may decide between +Inf and a huge value: only zero, negative and below-p results are rejected there",
 			"an undefined pair may be reported as NaN, +Inf, or as twice the largest defined entry of the matrix (the substitution the property record names); that substitute must be positive and, like every finite corrected distance, at least the pair's observed p",
 		},
-		Tasks: c07Tasks,
+		Tasks: func(tier string) []mc.Task { return append(c07Tasks(tier), c07CLITasks(tier == "thorough")...) },
 		Replay: func(c *mc.Ctx, payload json.RawMessage) {
+			if c07CLIReplay(c, payload) {
+				return
+			}
 			var cs c07Case
 			if err := json.Unmarshal(payload, &cs); err != nil {
 				c.Fatal("bad payload: %v", err)
